@@ -84,7 +84,7 @@ def wrap_argument(rng, case):
 
 def run(tier, seed, build):
     rng = random.Random(seed * 149 + 2)
-    n = 150 if tier == "quick" else 2000
+    n = 400 if tier == "quick" else 4000
     cases = [gen_case(rng) for _ in range(n)]
     impl = fw.run_impl("props.c02", "impl_case", [{k: v for k, v in c.items() if not k.startswith("_")} for c in cases], per_case_timeout=60)
     wrapped = [w for w in (wrap_argument(rng, c) for c in cases) if w is not None][: max(10, n // 10)]
